@@ -268,6 +268,14 @@ func (it Item) Instantiate(n int, entryName string) (string, string) {
 
 // FarOutside: constructs far outside the subset (C07: goose must answer with structured errors, never crash).
 var FarOutside = []Item{
+	{"decl.type-empty-group", "type ()\n\nfunc teg%d() uint64 {\n\treturn 1\n}\n", "return teg%d()", "uint64"},
+	{"decl.const-empty-group", "const ()\n\nfunc ceg%d() uint64 {\n\treturn 1\n}\n", "return ceg%d()", "uint64"},
+	{"decl.var-empty-group-global", "var ()\n\nfunc geg%d() uint64 {\n\treturn 1\n}\n", "return geg%d()", "uint64"},
+	{"decl.var-empty-group-local", "func veg%d() uint64 {\n\tvar ()\n\treturn 1\n}\n", "return veg%d()", "uint64"},
+	{"decl.type-empty-group-local", "func tel%d() uint64 {\n\ttype ()\n\treturn 1\n}\n", "return tel%d()", "uint64"},
+	{"define.5-values", "func dv%df() (uint64, uint64, uint64, uint64, uint64) {\n\treturn 1, 2, 3, 4, 5\n}\n\nfunc dv%d() uint64 {\n\ta, b, c, d, e := dv%df()\n\treturn a + b + c + d + e\n}\n", "return dv%d()", "uint64"},
+	{"assign.5-values", "func av%df() (uint64, uint64, uint64, uint64, uint64) {\n\treturn 1, 2, 3, 4, 5\n}\n\nfunc av%d() uint64 {\n\tvar a uint64\n\tvar b uint64\n\tvar c uint64\n\tvar d uint64\n\tvar e uint64\n\ta, b, c, d, e = av%df()\n\treturn a + b + c + d + e\n}\n", "return av%d()", "uint64"},
+	{"define.6-values-blank", "func bv%df() (uint64, uint64, uint64, uint64, uint64, bool) {\n\treturn 1, 2, 3, 4, 5, true\n}\n\nfunc bv%d() uint64 {\n\ta, _, _, _, _, ok := bv%df()\n\tif ok {\n\t\treturn a\n\t}\n\treturn 0\n}\n", "return bv%d()", "uint64"},
 	{"panic.int", "func pi%d(x uint64) uint64 {\n\tif x > 5 {\n\t\tpanic(3)\n\t}\n\treturn x\n}\n", "return pi%d(1)", "uint64"},
 	{"panic.const-string", "const pcs%dm = \"bad state\"\n\nfunc pcs%d(x uint64) uint64 {\n\tif x > 5 {\n\t\tpanic(pcs%dm)\n\t}\n\treturn x\n}\n", "return pcs%d(1)", "uint64"},
 	{"panic.concat", "func pcc%d(x uint64) uint64 {\n\tif x > 5 {\n\t\tpanic(\"a\" + \"b\")\n\t}\n\treturn x\n}\n", "return pcc%d(1)", "uint64"},
